@@ -267,15 +267,6 @@ mod verif_xc_matching_writer {
       }
       assert!(pending_out.is_empty() && pending_in.is_empty() && n_incompat == exp_incompat.is_some() as i32,
         "XC-WITNESS label={} ops={:?}: status events of the last operation are {:?}; expected {} (match set before {:?}, after {:?})", label, t, obs, expect, names(&pre), names(&self.matched));
-      // ---- frame: no operation touches the proxy of another reader; re-announce (same locators and
-      //      QoS), loss of another reader and participant loss leave every remaining proxy as it was
-      for (g, before) in &snapshot {
-        if let Some(after) = self.writer.readers.get(g) {
-          let touched = matches!(op, Op::Ack(r) if rguid(r) == *g);
-          assert!(touched || after == before, "XC-WITNESS label={} ops={:?}: the last operation changed the proxy of {}: before {:?} after {:?}",
-            if matches!(op, Op::Announce(r, _) if rguid(r) == *g) { "match.readd.frame" } else { "match.frame" }, t, rname(*g), before, after);
-        }
-      }
       // ---- run-time state of every matched proxy
       for &r in &self.matched {
         let rp = &self.writer.readers[&rguid(r)];
@@ -284,6 +275,15 @@ mod verif_xc_matching_writer {
         let unsent: Vec<i64> = rp.unsent_changes_iter().map(i64::from).collect();
         let want: Vec<i64> = if self.acked_before[r] > 0 { vec![self.acked_before[r]] } else { vec![] };
         assert!(unsent == want, "XC-WITNESS label=match.readd.frame ops={:?}: proxy of {} has requested changes {:?}, the reader's last ACKNACK asked for {:?}", t, NAMES[r], unsent, want);
+      }
+      // ---- frame: no operation touches the proxy of another reader; re-announce (same locators and
+      //      QoS), loss of another reader and participant loss leave every remaining proxy as it was
+      for (g, before) in &snapshot {
+        if let Some(after) = self.writer.readers.get(g) {
+          let touched = matches!(op, Op::Ack(r) if rguid(r) == *g);
+          assert!(touched || after == before, "XC-WITNESS label={} ops={:?}: the last operation changed the proxy of {}: before {:?} after {:?}",
+            if matches!(op, Op::Announce(r, _) if rguid(r) == *g) { "match.readd.frame" } else { "match.frame" }, t, rname(*g), before, after);
+        }
       }
     }
   }
